@@ -153,9 +153,14 @@ def check_history(kind, seed, nops, nsaves, queries):
     after = deep(doc)
     b0 = copy.deepcopy(before)
     a0 = copy.deepcopy(after)
-    for s in (b0, a0):
-        _drop_matrices(s)
-    df = snap.diff(b0, a0)
+    if hist:
+        # pending edits of transform lists: save() is documented to refresh the node matrices
+        for s in (b0, a0):
+            _drop_matrices(s)
+        df = snap.diff(b0, a0)
+    else:
+        # nothing was edited: the model after the save is the model before it, to the last bit
+        df = snap.diff_exact(b0, a0)
     if df:
         return ('model-changed', 'save changed the in-memory model: %s' % '; '.join(df[:3]))
     for i in range(nsaves):
@@ -255,6 +260,12 @@ def strip_scene_element(doc):
     return collada.Collada(io.BytesIO(data))
 
 
+def renamespace(doc, uri):
+    """the same document as loaded from a file in another namespace"""
+    import collada
+    return collada.Collada(io.BytesIO(wbytes(doc).replace(NS14.encode(), uri.encode())))
+
+
 def check_failure(seed, mode, dest):
     """(C)/(D): returns None or (sig, what). mode in scene|scene-noelem|camera|sink"""
     import collada
@@ -265,6 +276,10 @@ def check_failure(seed, mode, dest):
     if noelem:
         mode = 'scene'
         doc, twin = strip_scene_element(doc), strip_scene_element(twin)
+    uri = None
+    if random.Random('c03ns/%s' % seed).random() < 0.4:
+        uri = random.Random('c03ns/%s' % seed).choice([NS15, 'urn:x-c03:collada'])
+        doc, twin = renamespace(doc, uri), renamespace(twin, uri)
     tmp = tempfile.mkdtemp(prefix='c03_')
     try:
         path = os.path.join(tmp, 'out.dae')
@@ -314,13 +329,18 @@ def check_failure(seed, mode, dest):
         else:
             total = len(wbytes(twin))
             twin = build_pair(seed)[1]
+            if uri:
+                twin = renamespace(twin, uri)
             k = r.choice([0, 1, 2, total - 1, total - 2, r.randrange(total), r.randrange(total), r.randrange(min(total, 200))])
             try:
                 doc.write(FailingSink(k))
                 return ('sink-no-error', 'a sink that raises after %d bytes did not make write() raise' % k)
             except IOError:
                 pass
-        out = wbytes(doc)
+        try:
+            out = wbytes(doc)
+        except Exception as e:
+            return ('after-failure-raises:' + mode, 'after a failed write (%s) and the repair of the model a later write raises %s: %s' % (mode, type(e).__name__, str(e)[:120]))
         ref = wbytes(twin)
         if out != ref:
             return ('after-failure-differs:' + mode, 'after a failed write (%s) a later write differs from a run that never failed (%d vs %d bytes)'
@@ -406,7 +426,7 @@ def run(ctx):
     for i in range(ctx.n(60, 2500)):
         kind = bases[i % len(bases)] if i % 3 == 2 else ('constructed' if i % 3 == 0 else 'reloaded')
         seed = ctx.rng.randrange(10 ** 9)
-        nops = ctx.rng.randint(0, 8)
+        nops = ctx.rng.choice([0, 0, 0] + list(range(1, 9)))
         ns = ctx.rng.randint(1, 6)
         ctx.case(dict(check='history', base=kind, seed=seed, nops=nops, nsaves=ns))
         ctx.count('A:history')
